@@ -984,13 +984,15 @@ def wrappers(rec, case, rng, pp, cls):
         from sarpy.io.product.sidd1_elements.SIDD import SIDDType as _S1
         from sarpy.io.product.sidd3_elements.SIDD import SIDDType as _S3
         xml2 = s.to_xml_bytes()
-        for ver_, cls_, xml_ in ((1, _S1, xml2.replace(b'urn:SIDD:2.0.0', b'urn:SIDD:1.0.0')), (3, _S3, xml2)):
+        for ver_, cls_, xml_ in ((1, _S1, xml2.replace(b'urn:SIDD:2.0.0', b'urn:SIDD:1.0.0')), (3, _S3, xml2.replace(b'urn:SIDD:2.0.0', b'urn:SIDD:3.0.0'))):
             prev = _lg.root.manager.disable
             _lg.disable(_lg.CRITICAL)
             try:
                 sv = cls_.from_xml_string(xml_)
             finally:
                 _lg.disable(prev)
+            if f'sidd{ver_}_elements' not in type(sv).__module__:
+                raise Infra(f'the SIDD version {ver_} structure class was not obtained (got {type(sv).__module__})')
             rec.check(case, f'SIDD version {ver_} class: project_image_to_ground(PLANE) vs the version 2 class (m)',
                       sv.project_image_to_ground(pix, projection_type='PLANE') - P, IDENT, k)
             for frame_ in ('ECF', 'RIC_ECF', 'RIC_ECI'):
